@@ -26,21 +26,130 @@ ASSUMPTIONS = [
 TRUSTED = ["translator props/c10.py:translate (MAX_FDS_OUT, MAX_BYTES_OUT evaluated from command/src/scm_socket.rs -> coq/C10/Gen.v; field order of send/receive; shape of shut_down_sessions)"]
 
 
-def translate():
+TRANSLATE_FALLBACK = (
+    "every fact the translator reads is also observed on the implementation on each run: MAX_FDS_OUT / MAX_BYTES_OUT "
+    "are printed by the driver's `consts` op and decide the outcome of the boundary transfers (199/200/201 listeners, "
+    "manifests around the buffer size) that the generator always produces; the family order of send/receive and the "
+    "manifest/descriptor consistency test decide the pairing and error class of every `xfer` / `raw` case; the call "
+    "order of return_listen_sockets, the floor and single answer of shut_down_sessions and the quiescence test of "
+    "Stream::is_quiesced decide the black-box scenarios handover / softstop / softstop_h2 that run in every tier "
+    "(inode identity of the handed-over sockets, no early OK or exit with a request or an H2 stream pending, exactly one "
+    "final OK); an unreadable piece of Gen.v is generated from the committed snapshot props/c10_facts.json")
+
+FACTS = os.path.join(os.path.dirname(os.path.abspath(__file__)), "c10_facts.json")
+PERMANENT = {"HTTPListen", "HTTPSListen", "TCPListen", "UDPListen", "Channel", "Metrics", "Timer"}
+FAMS = ("http", "tls", "tcp", "udp")
+
+
+def _read(rel):
+    import rsread
+    return rsread.clean(open(os.path.join(vlib.REPO, rel)).read())
+
+
+def read_facts(fails):
+    """-> dict of the facts the model depends on; a piece that cannot be read is None (and reported `unreadable:`),
+    a piece that reads differently from what the proofs need is a hard failure"""
+    import rsread
+    f = dict(fds=None, nbytes=None, ret_steps=None, sd_steps=None, qf=None, qb=None, qand=None)
+    scm = _read("command/src/scm_socket.rs")
+    table = rsread.consts(scm)
+    f["fds"] = rsread.evalc(table.get("MAX_FDS_OUT"), table)
+    f["nbytes"] = rsread.evalc(table.get("MAX_BYTES_OUT"), table)
+    if f["fds"] is None or f["nbytes"] is None:
+        fails.append("unreadable: scm_socket.rs: the constants MAX_FDS_OUT / MAX_BYTES_OUT could not be evaluated")
+    # the receive buffers are sized by these constants (whatever they are called at the use site)
+    rb = (rsread.body(scm, "receive_listeners") or "") + (rsread.body(scm, "receive_msg_and_fds") or "")
+    sizes = [rsread.evalc(m.group(1), table) for m in re.finditer(r"vec!\s*\[\s*0\w*\s*;\s*([^\]]+)\]", rb)]
+    if f["nbytes"] is not None:
+        if not sizes or None in sizes:
+            fails.append("unreadable: scm_socket.rs: the size of receive_listeners' message buffer (model: MAX_BYTES_OUT = %d)" % f["nbytes"])
+        elif f["nbytes"] not in sizes:
+            fails.append("scm_socket.rs: receive_listeners' message buffer holds %s bytes, MAX_BYTES_OUT is %d" % (sizes, f["nbytes"]))
+    fsz = [rsread.evalc(m.group(1), table) for m in re.finditer(r"\[\s*(?:RawFd|0\w*)\s*;\s*([^\]]+)\]", rb)]
+    fsz = [x for x in fsz if x is not None and x != f["nbytes"]]
+    if f["fds"] is not None:
+        if not fsz:
+            fails.append("unreadable: scm_socket.rs: the size of receive_listeners' descriptor array (model: MAX_FDS_OUT = %d)" % f["fds"])
+        elif f["fds"] not in fsz:
+            fails.append("scm_socket.rs: receive_listeners' descriptor array holds %s entries, MAX_FDS_OUT is %d" % (fsz, f["fds"]))
+    # family order on the sending side: the descriptors are appended in the order of the manifest's fields
+    sb = rsread.body(scm, "send_listeners")
+    if sb is None:
+        fails.append("unreadable: scm_socket.rs: fn send_listeners not found (model: descriptors appended in http, tls, tcp, udp order)")
+    else:
+        lit = re.search(r"ListenersCount\s*\{", sb)
+        rest = sb
+        if lit:
+            import rustmini
+            try:
+                rest = sb[rustmini.match_brace(sb, lit.end() - 1):]
+            except rustmini.Unrecognised:
+                rest = sb[lit.end():]
+        # only statements that take the descriptor (`.1`) of the pairs
+        stmts = [x for x in rest.split(";") if re.search(r"\.\s*1\b", x) and re.search(r"\.(http|tls|tcp|udp)\b", x)]
+        order = [m.group(1) for x in stmts for m in [re.search(r"\.(http|tls|tcp|udp)\b", x)]]
+        if sorted(order) != sorted(FAMS):
+            # another spelling (a loop over the four tables, a chain): the tables named after the manifest, assertions aside
+            plain = re.sub(r"\b(?:debug_)?assert\w*!\s*\((?:[^()]|\([^()]*\))*\)", "", rest)
+            order = [m.group(1) for m in re.finditer(r"\blisteners\s*\.\s*(http|tls|tcp|udp)\b(?!\s*\.\s*(?:len|is_empty)\s*\()", plain)]
+        if sorted(order) != sorted(FAMS):
+            fails.append("unreadable: scm_socket.rs: send_listeners: which family's descriptors are appended in which order (model: http, tls, tcp, udp)")
+        elif tuple(order) != FAMS:
+            fails.append("scm_socket.rs: send_listeners appends descriptors in the order %s; manifest and receiver use http, tls, tcp, udp" % (order,))
+    # family order and consistency test on the receiving side
+    pb = rsread.body(scm, "pair_listeners") or rsread.body(scm, "receive_listeners")
+    if pb is None or "received_fds" not in pb:
+        fails.append("unreadable: scm_socket.rs: the function pairing addresses with received descriptors (model: slices taken in http, tls, tcp, udp order; manifest rejected when total > MAX_FDS_OUT or > descriptors received)")
+    else:
+        order = []
+        for m in re.finditer(r"received_fds\s*\[", pb):
+            stmt = pb[pb.rfind(";", 0, m.start()) + 1:m.start()]
+            mm = re.findall(r"\b(http|tls|tcp|udp)(?:s|_\w+)?\b", stmt)
+            if not mm:
+                # the length variable of this slice was bound just before
+                prev = pb[:m.start()]
+                mm = re.findall(r"let\s+\w+\s*=\s*(http|tls|tcp|udp)_\w+\s*;", prev)[-1:]
+            if mm:
+                order.append(mm[-1])
+        if sorted(order) != sorted(FAMS):
+            fails.append("unreadable: scm_socket.rs: the order in which the received descriptors are sliced per family (model: http, tls, tcp, udp)")
+        elif tuple(order) != FAMS:
+            fails.append("scm_socket.rs: received descriptors are sliced in the order %s; the sender uses http, tls, tcp, udp" % (order,))
+        if f["fds"] is not None:
+            cmp_ = [(m.group(1), m.group(2), m.group(3)) for m in re.finditer(r"(\w+)\s*(>=|<=|>|<)\s*([A-Za-z_]\w*)", pb)]
+            strict = [c for c in cmp_ if (c[1] == ">" and rsread.evalc(c[2], table) == f["fds"]) or (c[1] == "<" and rsread.evalc(c[0], table) == f["fds"])]
+            loose = [c for c in cmp_ if (c[1] == ">=" and rsread.evalc(c[2], table) == f["fds"]) or (c[1] == "<=" and rsread.evalc(c[0], table) == f["fds"])]
+            if loose and not strict:
+                fails.append("scm_socket.rs: a manifest of exactly MAX_FDS_OUT entries is now rejected (%s)" % (" ".join(loose[0]),))
+            elif not strict:
+                fails.append("unreadable: scm_socket.rs: the test rejecting a manifest with more entries than MAX_FDS_OUT (model: total > MAX_FDS_OUT)")
+            if not re.search(r"(\w+)\s*>\s*(file_descriptor_length|\w*len\w*|\w*count\w*|received_fds\.len\(\))|(\w*len\w*|\w*count\w*)\s*<\s*\w+", pb):
+                fails.append("unreadable: scm_socket.rs: the test rejecting a manifest with more entries than descriptors received")
+    srv = _read("lib/src/server.rs")
+    f["ret_steps"] = order_of_return(srv, fails)
+    f["sd_steps"] = order_of_shutdown(srv, fails)
+    f["qf"], f["qb"], f["qand"] = quiesced_shape(fails)
+    return f
+
+
+def translate(snapshot=False):
     fails = []
-    src = open(os.path.join(vlib.REPO, "command/src/scm_socket.rs")).read()
-    mf = re.search(r"pub const MAX_FDS_OUT: usize = (\d+);", src)
-    mb = re.search(r"pub const MAX_BYTES_OUT: usize = ([^;]+);", src)
-    if not mf or not mb:
-        return ["scm_socket.rs: MAX_FDS_OUT / MAX_BYTES_OUT not found"]
-    fds = int(mf.group(1))
-    expr = mb.group(1).replace("MAX_FDS_OUT", str(fds))
-    if not re.fullmatch(r"[0-9+*() ]+", expr):
-        return ["scm_socket.rs: MAX_BYTES_OUT is no longer a constant expression over MAX_FDS_OUT: %r" % mb.group(1)]
-    nbytes = int(eval(expr))
-    srv0 = open(os.path.join(vlib.REPO, "lib/src/server.rs")).read()
-    ret_steps, sd_steps = order_of_return(srv0, fails), order_of_shutdown(srv0, fails)
-    qf, qb, qand = quiesced_shape(fails)
+    facts = read_facts(fails)
+    if snapshot:
+        import json
+        json.dump(facts, open(FACTS, "w"), indent=1, sort_keys=True)
+        return fails
+    try:
+        import json
+        snap = json.load(open(FACTS))
+    except Exception:
+        snap = {}
+    g = {k: (facts[k] if facts[k] is not None else snap.get(k)) for k in facts}
+    if any(v is None for v in g.values()):
+        fails.append("the facts %s can neither be read from the source nor from props/c10_facts.json" % [k for k, v in g.items() if v is None])
+        return fails
+    fds, nbytes = g["fds"], g["nbytes"]
+    qf, qb, qand = g["qf"], g["qb"], g["qand"]
     vlib.write_if_changed(os.path.join(vlib.COQ, "C10", "Gen.v"),
                           "(* GENERATED by props/c10.py:translate from command/src/scm_socket.rs and lib/src/server.rs *)\n"
                           "Require Import List. Import ListNotations.\n"
@@ -58,112 +167,149 @@ def translate():
                           "Definition quiesced_front : list nat * bool := ([%s], %s).\n"
                           "Definition quiesced_back : list nat * bool := ([%s], %s).\n"
                           "Definition quiesced_both : bool := %s.\n"
-                          % (fds, nbytes // 1000, nbytes % 1000, "; ".join(map(str, ret_steps)), "; ".join(map(str, sd_steps)),
+                          % (fds, nbytes // 1000, nbytes % 1000, "; ".join(map(str, g["ret_steps"])), "; ".join(map(str, g["sd_steps"])),
                              "; ".join(map(str, qf[0])), "true" if qf[1] else "false",
                              "; ".join(map(str, qb[0])), "true" if qb[1] else "false", "true" if qand else "false"))
-    if "vec![0; MAX_BYTES_OUT]" not in src or "[RawFd; MAX_FDS_OUT]" not in src:
-        fails.append("scm_socket.rs: receive_listeners no longer sizes its buffers with MAX_BYTES_OUT / MAX_FDS_OUT")
-    order_send = [m.start() for m in (re.search(p, src) for p in (
-        r"file_descriptors\.extend\(listeners\.http", r"file_descriptors\.extend\(listeners\.tls",
-        r"file_descriptors\.extend\(listeners\.tcp", r"file_descriptors\.extend\(listeners\.udp")) if m]
-    if len(order_send) != 4 or order_send != sorted(order_send):
-        fails.append("scm_socket.rs: send_listeners no longer appends descriptors in http, tls, tcp, udp order")
-    if not re.search(r"let len = http_len;.*?let len = tls_len;.*?let len = tcp_len;.*?let len = udp_len;", src, re.S):
-        fails.append("scm_socket.rs: receive_listeners no longer slices descriptors in http, tls, tcp, udp order")
-    if not re.search(r"total > MAX_FDS_OUT \|\| total > file_descriptor_length", src):
-        fails.append("scm_socket.rs: the manifest/descriptor consistency test changed")
-    srv = open(os.path.join(vlib.REPO, "lib/src/server.rs")).read()
-    m = re.search(r"fn shut_down_sessions\(&mut self\) -> bool \{.*?\n    \}\n", srv, re.S)
-    if not m:
-        fails.append("server.rs: fn shut_down_sessions not found")
-    else:
-        b = m.group(0)
-        if len(re.findall(r"self\s*\.shutting_down", b)) != 1 or ".take()" not in b:
-            fails.append("server.rs: shut_down_sessions no longer takes the soft-stop request id exactly once")
-        # the floor: the listener / channel / metrics / timer slots, counted from the slab (fix 0e7d818; before: base_sessions_count)
-        if not re.search(r"if new_sessions_count <= listen_slots \{", b) or not re.search(
-                r"let listen_slots = self\s*\.sessions\s*\.borrow\(\)\s*\.slab\s*\.iter\(\)\s*\.filter\(.*?Protocol::HTTPListen.*?Protocol::TCPListen.*?\.count\(\);", b, re.S):
-            fails.append("server.rs: shut_down_sessions no longer answers exactly when the slab is down to its listener/system slots (new_sessions_count <= listen_slots)")
-        if b.count("WorkerResponse::ok(id)") != 1:
-            fails.append("server.rs: shut_down_sessions no longer builds exactly one OK answer")
     return fails
 
 
-def _body(src, head):
-    m = re.search(re.escape(head) + r".*?\n    \}\n", src, re.S)
-    return m.group(0) if m else None
+def _protocols_of(pred, src, depth=0):
+    """the Protocol variants a filter predicate accepts: inline `matches!`/`==`, or one private helper followed"""
+    names = set(re.findall(r"Protocol::(\w+)", pred))
+    if names or depth > 1:
+        return names
+    for m in re.finditer(r"\b(?:Self::|self\.)?([a-z_][a-z0-9_]*)\s*\(", pred):
+        import rsread
+        hb = rsread.body(src, m.group(1))
+        if hb:
+            got = _protocols_of(hb, src, depth + 1)
+            if got:
+                return got
+    return set()
 
 
 def quiesced_shape(fails):
     """T-table: the conjuncts of Stream::is_quiesced and the way Mux::shutting_down consults it"""
-    st = open(os.path.join(vlib.REPO, "lib/src/protocol/mux/stream.rs")).read()
-    m = re.search(r"pub fn is_quiesced\(&self\) -> bool \{(.*?)\n    \}\n", st, re.S)
-    if not m:
-        fails.append("stream.rs: fn is_quiesced not found")
-        return ([], False), ([], False), False
-    b = re.sub(r"//[^\n]*", "", m.group(1))
+    import rsread
+    st = _read("lib/src/protocol/mux/stream.rs")
+    b = rsread.body(st, "is_quiesced")
+    if b is None:
+        fails.append("unreadable: stream.rs: fn is_quiesced not found")
+        return None, None, None
+    PH = ((0, "is_initial"), (1, "is_running"), (2, "is_completed"), (3, "is_terminated"))
 
     def side(name):
-        mm = re.search(r"let %s_done\s*=(.*?);" % name, b, re.S)
-        if not mm:
-            fails.append("stream.rs: is_quiesced no longer computes %s_done" % name)
-            return ([], False)
-        e = mm.group(1)
-        phases = [code for code, fn in ((0, "is_initial"), (1, "is_running"), (2, "is_completed"), (3, "is_terminated"))
-                  if re.search(r"self\.%s\.%s\(\)" % (name, fn), e)]
-        empty = bool(re.search(r"&&\s*self\.%s\.storage\.is_empty\(\)" % name, e))
-        return (phases, empty)
-    both = bool(re.search(r"front_done\s*&&\s*back_done\s*$", b.strip()))
-    mux = open(os.path.join(vlib.REPO, "lib/src/protocol/mux/mod.rs")).read()
-    mm = re.search(r"let mut can_stop = true;(.*?)if can_stop \{", mux, re.S)
-    if not mm:
-        fails.append("mux/mod.rs: the can_stop scan of Mux::shutting_down not found")
+        # every sub-expression about this direction, wherever it is bound
+        phases = [code for code, fn in PH if re.search(r"self\s*\.\s*%s\s*\.\s*%s\s*\(\)" % (name, fn), b)]
+        empty = bool(re.search(r"self\s*\.\s*%s\s*\.\s*storage\s*\.\s*is_empty\s*\(\)" % name, b))
+        if not phases:
+            # a helper applied to the direction: `helper(&self.front)` / `self.front.helper()`
+            hm = re.search(r"(?:Self::|self\.)?(\w+)\s*\(\s*&?\s*self\s*\.\s*%s\s*\)|self\s*\.\s*%s\s*\.\s*(\w+)\s*\(\s*\)" % (name, name), b)
+            hb = hm and rsread.body(st, hm.group(1) or hm.group(2))
+            if hb:
+                phases = [code for code, fn in PH if re.search(r"\.\s*%s\s*\(\)" % fn, hb)]
+                empty = bool(re.search(r"storage\s*\.\s*is_empty\s*\(\)", hb))
+        return (phases, empty) if phases else None
+    qf, qb = side("front"), side("back")
+    if qf is None or qb is None:
+        fails.append("unreadable: stream.rs: the phase / storage tests of Stream::is_quiesced (model: both directions initial|completed|terminated and storage empty)")
+    # conjunction of both directions: no `||` joins the two halves
+    tail = b.strip().split(";")[-1]
+    qand = True
+    if re.search(r"\|\|", tail) and not re.search(r"&&", tail):
+        qand = False
+    mux = _read("lib/src/protocol/mux/mod.rs")
+    sd = None
+    for m in re.finditer(r"\bfn\s+shutting_down\b", mux):
+        cand = rsread.body(mux, "shutting_down", m.start())
+        if cand and "is_quiesced" in cand:
+            sd = cand
+            break
+    if sd is None:
+        fails.append("unreadable: mux/mod.rs: the shutting_down that consults Stream::is_quiesced (model: a linked stream keeps the session, an unlinked one unless quiesced, a pending frontend write keeps it)")
     else:
-        scan = re.sub(r"//[^\n]*", "", mm.group(1))
-        if not re.search(r"StreamState::Linked\(_\) => \{\s*can_stop = false;", scan):
-            fails.append("mux/mod.rs: shutting_down no longer refuses to stop while a stream is linked to a backend")
-        if not re.search(r"StreamState::Unlinked => \{.*?if stream\.is_quiesced\(\) \{\s*continue;\s*\}.*?can_stop = false;", scan, re.S):
-            fails.append("mux/mod.rs: shutting_down no longer keeps the connection for an unlinked stream that is not quiesced")
-        if not re.search(r"if self\.frontend\.has_pending_write\(\) \{\s*return false;", scan):
-            fails.append("mux/mod.rs: shutting_down no longer waits for the frontend's pending write")
-    return side("front"), side("back"), both
+        flag = re.search(r"let\s+mut\s+(\w+)\s*=\s*true\s*;", sd)
+        v = flag.group(1) if flag else r"\w+"
+        if not re.search(r"Linked\s*\(\s*_\s*\)\s*=>\s*\{?\s*%s\s*=\s*false" % v, sd):
+            fails.append("unreadable: mux/mod.rs: shutting_down: a stream linked to a backend keeps the session")
+        if not re.search(r"Unlinked\s*=>.*?is_quiesced\s*\(\).*?%s\s*=\s*false" % v, sd, re.S):
+            fails.append("unreadable: mux/mod.rs: shutting_down: an unlinked stream keeps the session unless quiesced")
+        if not re.search(r"has_pending_write\s*\(\)", sd):
+            fails.append("unreadable: mux/mod.rs: shutting_down: a pending frontend write keeps the session")
+    return (list(qf) if qf else None), (list(qb) if qb else None), qand
 
 
 def order_of_return(srv, fails):
     """T-order: the calls of Server::return_listen_sockets in the order the source makes them"""
-    b = _body(srv, "pub fn return_listen_sockets(&mut self)")
+    import rsread
+    b = rsread.body(srv, "return_listen_sockets")
     if b is None:
-        fails.append("server.rs: fn return_listen_sockets not found")
-        return []
-    b = re.sub(r"//[^\n]*", "", b)
-    pats = [(1, r"self\.http\.borrow_mut\(\)\.give_back_listeners\(\)"), (2, r"self\.https\.borrow_mut\(\)\.give_back_listeners\(\)"),
-            (3, r"self\.tcp\.borrow_mut\(\)\.give_back_listeners\(\)"), (4, r"self\.udp\.borrow_mut\(\)\.give_back_listeners\(\)"),
-            (5, r"let listeners = Listeners \{"), (6, r"\.send_listeners\(&listeners\)"),
-            (8, r"into_raw_fd\(\)"), (9, r"\bdrop\((http|https|tcp|udp)_listeners\)|listeners\.close\(\)|libc::close")]
-    found = []
-    for code, pat in pats:
-        for m in re.finditer(pat, b):
-            found.append((m.start(), code))
-    steps = [c for _, c in sorted(found)]
-    if 5 in steps and "as_raw_fd()" not in b:
+        fails.append("unreadable: server.rs: fn return_listen_sockets not found")
+        return None
+    pats = [(1, r"self\s*\.\s*http\s*\.\s*borrow_mut\(\)\s*\.\s*give_back_listeners\(\)"), (2, r"self\s*\.\s*https\s*\.\s*borrow_mut\(\)\s*\.\s*give_back_listeners\(\)"),
+            (3, r"self\s*\.\s*tcp\s*\.\s*borrow_mut\(\)\s*\.\s*give_back_listeners\(\)"), (4, r"self\s*\.\s*udp\s*\.\s*borrow_mut\(\)\s*\.\s*give_back_listeners\(\)"),
+            (5, r"\bListeners\s*\{"), (6, r"\.\s*send_listeners\s*\("),
+            (8, r"into_raw_fd\s*\(\)"), (9, r"\bdrop\s*\(\s*\w*listeners\w*\s*\)|\w*listeners\w*\s*\.\s*close\s*\(\)|libc::close")]
+    steps = rsread.all_positions(b, pats)
+    if sorted(set(steps) & {1, 2, 3, 4, 5, 6}) != [1, 2, 3, 4, 5, 6]:
+        fails.append("unreadable: server.rs: return_listen_sockets: the give_back_listeners calls of the four proxies, the manifest and send_listeners (model: take, build from borrowed descriptors, send, then drop)")
+        return None
+    if 5 in steps and not re.search(r"as_raw_fd\s*\(\)", b):
         fails.append("server.rs: return_listen_sockets no longer builds the manifest from borrowed descriptors (as_raw_fd)")
     return steps + [7]          # the local listener vectors go out of scope at the end of the function
 
 
 def order_of_shutdown(srv, fails):
-    b = _body(srv, "fn shut_down_sessions(&mut self) -> bool")
+    import rsread
+    b = rsread.body(srv, "shut_down_sessions")
     if b is None:
-        fails.append("server.rs: fn shut_down_sessions not found")
-        return []
-    b = re.sub(r"//[^\n]*", "", b)
-    pats = [(1, r"session\.shutting_down\(\)"), (2, r"self\.shut_down_sessions_by_frontend_tokens\("),
-            (3, r"let new_sessions_count ="), (4, r"if new_sessions_count <= "), (5, r"\.shutting_down\s*\.take\(\)"),
-            (6, r"WorkerResponse::ok\(id\)"), (7, r"self\.channel\.write_message\(&proxy_response\)"), (8, r"return true;")]
-    found = []
-    for code, pat in pats:
-        for m in re.finditer(pat, b):
-            found.append((m.start(), code))
-    return [c for _, c in sorted(found)]
+        fails.append("unreadable: server.rs: fn shut_down_sessions not found")
+        return None
+    # the comparison that guards the answer: `if X <= Y {` (or `Y >= X`) whose block takes the request id
+    guard = None
+    for m in re.finditer(r"\bif\s+(\w+)\s*(<=|>=|<|>|==)\s*(\w+)\s*\{", b):
+        import rustmini
+        try:
+            blk = b[m.end():rustmini.match_brace(b, m.end() - 1)]
+        except rustmini.Unrecognised:
+            continue
+        if re.search(r"shutting_down\s*\.\s*take\s*\(\)", blk):
+            guard = (m, blk)
+            break
+    if guard is None:
+        fails.append("unreadable: server.rs: shut_down_sessions: the comparison guarding the single take() of the request id (model: sessions left <= listener/system slots)")
+        return None
+    m, blk = guard
+    x, op, y = m.group(1), m.group(2), m.group(3)
+    if op == ">=":
+        x, y, op = y, x, "<="
+    if op != "<=":
+        fails.append("server.rs: shut_down_sessions answers when `%s %s %s` (model: sessions left <= floor)" % (m.group(1), m.group(2), m.group(3)))
+    # X = what is left in the slab, counted after the closable sessions were closed
+    dx = re.search(r"let\s+%s\s*=\s*([^;]*slab[^;]*\.len\s*\(\)[^;]*);" % re.escape(x), b)
+    # Y = the permanent slots, counted from the slab by a predicate over Protocol
+    dy = re.search(r"let\s+%s\s*=\s*([^;]*slab[^;]*\.filter\s*\(([^;]*)\)\s*\.count\s*\(\)[^;]*);" % re.escape(y), b, re.S)
+    if not dx or not dy:
+        fails.append("unreadable: server.rs: shut_down_sessions: how `%s` (sessions left) and `%s` (the floor) are computed (model: slab length after closing; slab entries whose protocol is a listener / channel / metrics / timer)" % (x, y))
+    else:
+        protos = _protocols_of(dy.group(2), srv)
+        if not protos:
+            fails.append("unreadable: server.rs: shut_down_sessions: the protocols counted as permanent slots")
+        elif protos != PERMANENT:
+            fails.append("server.rs: shut_down_sessions counts %s as permanent slots, the model assumes %s" % (sorted(protos), sorted(PERMANENT)))
+    if len(re.findall(r"shutting_down\s*\.\s*take\s*\(\)", b)) != 1:
+        fails.append("server.rs: shut_down_sessions no longer takes the soft-stop request id exactly once")
+    if len(re.findall(r"WorkerResponse::ok\s*\(", b)) != 1:
+        fails.append("server.rs: shut_down_sessions no longer builds exactly one OK answer")
+    closer = re.search(r"self\s*\.\s*(\w*shut_down_sessions_by\w*|\w*close_sessions\w*|\w*kill_sessions\w*)\s*\(", b)
+    pats = [(1, r"\.\s*shutting_down\s*\(\)"), (2, re.escape(closer.group(0)) if closer else r"\bNO_CLOSER\b"),
+            (3, r"let\s+%s\s*=" % re.escape(x)), (4, re.escape(m.group(0))), (5, r"shutting_down\s*\.\s*take\s*\(\)"),
+            (6, r"WorkerResponse::ok\s*\("), (7, r"\.\s*write_message\s*\("), (8, r"return\s+true\s*;")]
+    steps = rsread.all_positions(b, pats)
+    if sorted(set(steps)) != [1, 2, 3, 4, 5, 6, 7, 8]:
+        fails.append("unreadable: server.rs: shut_down_sessions: the calls poll / close / count / compare / take / answer / write / return (found %s)" % steps)
+        return None
+    return steps
 
 
 V4 = ["1.1.1.1", "10.0.0.1", "127.0.0.1", "192.168.100.200", "255.255.255.255", "127.100.100.100"]
